@@ -221,7 +221,7 @@ func (m *Mux) AddListener(pattern string, handler func(*Event)) {
 		panic("nil event handler")
 	}
 
-	n, params := m.fetch(pattern, nil)
+	n, params, _ := m.fetch(pattern, nil)
 	setAndValidateParams(n, params)
 	n.listeners = append(n.listeners, handler)
 }
@@ -242,7 +242,7 @@ func (m *Mux) Mount(path string, sub *Mux) {
 	if spath == "" {
 		panic("res: attempting to mount to root")
 	}
-	n, _ := m.fetch(spath, sub.root)
+	n, _, _ := m.fetch(spath, sub.root)
 	if n != sub.root {
 		panic("res: attempting to mount to existing pattern: " + mergePattern(m.path, spath))
 	}
@@ -285,12 +285,18 @@ func (m *Mux) add(pattern string, hs *regHandler) {
 		panic(invalidPattern)
 	}
 
-	n, params := m.fetch(pattern, nil)
+	n, params, mountIdx := m.fetch(pattern, nil)
 
 	if n.hs != nil {
 		panic("res: registration already done for pattern " + mergePattern(m.path, pattern))
 	}
 	setAndValidateParams(n, params)
+	// Group tag indexes are, like path params, relative to the mount point
+	for i := range hs.group {
+		if hs.group[i].str == "" {
+			hs.group[i].idx -= mountIdx
+		}
+	}
 	n.hs = hs
 
 	// Register listeners
@@ -309,7 +315,7 @@ func (m *Mux) add(pattern string, hs *regHandler) {
 
 // fetch get the node for a given pattern (not including Mux path).
 // An invalid pattern will cause panic.
-func (m *Mux) fetch(pattern string, mount *node) (*node, []pathParam) {
+func (m *Mux) fetch(pattern string, mount *node) (*node, []pathParam, int) {
 	tokens := splitPattern(pattern)
 
 	var params []pathParam
@@ -392,7 +398,7 @@ func (m *Mux) fetch(pattern string, mount *node) (*node, []pathParam) {
 		l = n
 	}
 
-	return l, params
+	return l, params, mountIdx
 }
 
 // GetHandler parses the resource name and gets the registered handler,
